@@ -625,6 +625,14 @@ fn job_world(job: &Value) -> Value {
         }
     }
     let inputs: Vec<String> = job["inputs"].as_array().unwrap().iter().map(|s| s.as_str().unwrap().to_string()).collect();
+    // "shared_storage": inputs that are a prefix of the longest input are handed to find_iter as slices of that one
+    // buffer (same start address, different ends), the way a caller scans `&text[..n]` and `text`, or refills a buffer
+    let shared = job.get("shared_storage").and_then(|c| c.as_bool()).unwrap_or(false);
+    let storage: String = inputs.iter().max_by_key(|s| s.len()).cloned().unwrap_or_default();
+    let views: Vec<&str> = inputs
+        .iter()
+        .map(|s| if shared && storage.starts_with(s.as_str()) { &storage[..s.len()] } else { s.as_str() })
+        .collect();
     // steps: ["new", iter_id, scanner_idx, input_idx] | ["op", iter_id, opname, arg?] | ["drop", iter_id] | ["scanner_set_mode", scanner_idx, mode]
     let mut outs: BTreeMap<u64, Vec<Vec<u64>>> = BTreeMap::new();
     let r = catch_unwind(AssertUnwindSafe(|| {
@@ -634,7 +642,7 @@ fn job_world(job: &Value) -> Value {
                 "new" => {
                     let id = step[1].as_u64().unwrap();
                     let sc = &scanners[step[2].as_u64().unwrap() as usize];
-                    let inp: &str = &inputs[step[3].as_u64().unwrap() as usize];
+                    let inp: &str = views[step[3].as_u64().unwrap() as usize];
                     iters.insert(id, (sc.find_iter(inp), false));
                     outs.entry(id).or_default();
                 }
